@@ -259,39 +259,111 @@ func ruleR15b(c *Ctx, rule string) {
 	tests := map[pair]*ssa.Lookup{}
 	acqs := map[pair]ssa.Instruction{}
 	var testBlocks, acqBlocks []*ssa.BasicBlock
-	for _, b := range tryLock.Blocks {
-		for _, ins := range b.Instrs {
-			switch x := ins.(type) {
-			case *ssa.Lookup:
-				p := pair{keyField(x.Index), mapField(x.X)}
-				if p.acc == "" || p.m == "" || !x.CommaOk {
-					continue
+	// tryLock and the helpers of the package it delegates to (`isAvailable`, `hold`): an event inside a helper is
+	// anchored, for the ordering rule, at the block of tryLock that calls the helper
+	type scope struct {
+		fn     *ssa.Function
+		anchor *ssa.BasicBlock // nil: the instruction's own block (tryLock itself)
+		call   *ssa.Call       // the call in tryLock through which the helper is reached
+	}
+	scopes := []scope{{tryLock, nil, nil}}
+	var addCallees func(f *ssa.Function, anchor *ssa.BasicBlock, call *ssa.Call, depth int)
+	seenFn := map[*ssa.Function]bool{tryLock: true}
+	addCallees = func(f *ssa.Function, anchor *ssa.BasicBlock, call *ssa.Call, depth int) {
+		if depth > 3 {
+			return
+		}
+		allCalls(f, func(ci ssa.CallInstruction) {
+			cl, ok := ci.(*ssa.Call)
+			if !ok {
+				return
+			}
+			g := staticCallee(cl)
+			if g == nil || fnPkgPath(g) != pkgCommand || len(g.Blocks) == 0 || seenFn[g] {
+				return
+			}
+			seenFn[g] = true
+			a, rc := anchor, call
+			if f == tryLock {
+				a, rc = cl.Block(), cl
+			}
+			scopes = append(scopes, scope{g, a, rc})
+			addCallees(g, a, rc, depth+1)
+		})
+	}
+	addCallees(tryLock, nil, nil, 0)
+	// a helper's `return false` refuses the request only if tryLock returns false when the helper does
+	helperRefuses := func(call *ssa.Call) bool {
+		if call == nil {
+			return true
+		}
+		for _, r := range *call.Referrers() {
+			cond, neg := ssa.Value(call), false
+			if u, ok := r.(*ssa.UnOp); ok && u.Op == token.NOT {
+				cond, neg = u, true
+				for _, rr := range *u.Referrers() {
+					if iff, ok := rr.(*ssa.If); ok && iff.Cond == cond {
+						r = iff
+					}
 				}
-				// does the ok result lead to `return false` on its true edge?
-				rejects := false
-				for _, r := range *x.Referrers() {
-					if e, ok := r.(*ssa.Extract); ok && e.Index == 1 {
-						for _, rr := range *e.Referrers() {
-							if iff, ok := rr.(*ssa.If); ok && iff.Cond == e {
-								tb := iff.Block().Succs[0]
-								if ret, ok := tb.Instrs[len(tb.Instrs)-1].(*ssa.Return); ok && len(ret.Results) == 1 {
-									if bv, ok := constBool(ret.Results[0]); ok && !bv {
-										rejects = true
+			}
+			iff, ok := r.(*ssa.If)
+			if !ok {
+				continue
+			}
+			// successor taken when the helper returned false
+			si := 1
+			if neg {
+				si = 0
+			}
+			tb := iff.Block().Succs[si]
+			if ret, ok := tb.Instrs[len(tb.Instrs)-1].(*ssa.Return); ok && len(ret.Results) == 1 {
+				if bv, ok := constBool(ret.Results[0]); ok && !bv {
+					return true
+				}
+			}
+		}
+		return false
+	}
+	for _, sc := range scopes {
+		for _, b := range sc.fn.Blocks {
+			anchor := sc.anchor
+			if anchor == nil {
+				anchor = b
+			}
+			for _, ins := range b.Instrs {
+				switch x := ins.(type) {
+				case *ssa.Lookup:
+					p := pair{keyField(x.Index), mapField(x.X)}
+					if p.acc == "" || p.m == "" || !x.CommaOk {
+						continue
+					}
+					// does the ok result lead to `return false` on its true edge?
+					rejects := false
+					for _, r := range *x.Referrers() {
+						if e, ok := r.(*ssa.Extract); ok && e.Index == 1 {
+							for _, rr := range *e.Referrers() {
+								if iff, ok := rr.(*ssa.If); ok && iff.Cond == e {
+									tb := iff.Block().Succs[0]
+									if ret, ok := tb.Instrs[len(tb.Instrs)-1].(*ssa.Return); ok && len(ret.Results) == 1 {
+										if bv, ok := constBool(ret.Results[0]); ok && !bv {
+											rejects = true
+										}
 									}
 								}
 							}
 						}
 					}
-				}
-				if rejects {
-					tests[p] = x
-					testBlocks = append(testBlocks, b)
-				}
-			case *ssa.MapUpdate:
-				p := pair{keyField(x.Key), mapField(x.Map)}
-				if p.acc != "" && p.m != "" {
-					acqs[p] = x
-					acqBlocks = append(acqBlocks, b)
+					if rejects && helperRefuses(sc.call) {
+						tests[p] = x
+						testBlocks = append(testBlocks, anchor)
+					}
+				case *ssa.MapUpdate:
+					p := pair{keyField(x.Key), mapField(x.Map)}
+					if p.acc != "" && p.m != "" {
+						acqs[p] = x
+						acqBlocks = append(acqBlocks, anchor)
+					}
 				}
 			}
 		}
@@ -332,13 +404,15 @@ func ruleR15b(c *Ctx, rule string) {
 		"a compatibility test is reachable after an acquisition in tryLock: a request can be refused after it already took some accounts")
 	// read locks are counted: Add(1) in tryLock
 	counted := false
-	allCalls(tryLock, func(ci ssa.CallInstruction) {
-		if calleeFullName(ci) == "(*sync/atomic.Int64).Add" {
-			if n, ok := constInt(ci.Common().Args[1]); ok && n == 1 {
-				counted = true
+	for _, sc := range scopes {
+		allCalls(sc.fn, func(ci ssa.CallInstruction) {
+			if calleeFullName(ci) == "(*sync/atomic.Int64).Add" {
+				if n, ok := constInt(ci.Common().Args[1]); ok && n == 1 {
+					counted = true
+				}
 			}
-		}
-	})
+		})
+	}
 	c.check(counted, rule, "tryLock:read-locks-counted", tryLock.Pos(), "each read acquisition increments the per-account counter", "tryLock does not count read holders: the first reader to leave would release the account for writers while others still read")
 	// unlock mirrors
 	dels := map[pair]*ssa.Call{}
@@ -451,7 +525,7 @@ func ruleR15cd(c *Ctx) {
 	nUnlockCalls, nCancelArms := 0, 0
 	for _, root := range c.entryPoints(pkgCommand) {
 		// does this entry point (transitively) call lockIntent.unlock or wait on ctx.Done with intents?
-		relevant := false
+		relevant := c.reachesStatic(root, func(ci ssa.CallInstruction) bool { return callsFn(ci, unlockFn) }, map[*ssa.Function]int{}, 0)
 		for _, f := range withLiterals(root) {
 			allCalls(f, func(ci ssa.CallInstruction) {
 				if callsFn(ci, unlockFn) {
@@ -551,6 +625,20 @@ func ruleR15cd(c *Ctx) {
 				return s
 			},
 			Edge: func(pc *PathCtx, s uint64, from *ssa.BasicBlock, si int) (uint64, bool) {
+				for _, f := range edgeFacts(from, si) {
+					// `if intent.isAcquired()`: a helper that probes the acquired channel without blocking
+					if call, ok := f.X.(*ssa.Call); ok && s&cdCANCEL != 0 {
+						if g := staticCallee(call); g != nil && isAcquiredProbe(g, isAcquiredChan) {
+							if b, isB := constBool(f.Y); isB {
+								if b == f.Eq {
+									s |= cdGRANTED
+								} else {
+									s |= cdNOTGRANTED
+								}
+							}
+						}
+					}
+				}
 				for _, f := range pc.edgeFacts(from, si) {
 					e, ok := f.X.(*ssa.Extract)
 					if !ok || e.Index != 0 {
@@ -708,4 +796,47 @@ func ruleR15e(c *Ctx, isRecheck func(fn *ssa.Function) bool) {
 	} else {
 		c.ok(rule, "LinkedListNode.Remove:keeps-forward-link", remove.Pos(), "Remove leaves the removed node's forward link intact (the queue walk continues past a granted request)")
 	}
+}
+
+
+// isAcquiredProbe: fn is `select { case <-x.acquired: return true; default: return false }`.
+func isAcquiredProbe(fn *ssa.Function, isAcquiredChan func(ssa.Value) bool) bool {
+	if len(fn.Blocks) == 0 || fn.Signature.Results().Len() != 1 {
+		return false
+	}
+	var sel *ssa.Select
+	for _, b := range fn.Blocks {
+		for _, ins := range b.Instrs {
+			switch x := ins.(type) {
+			case *ssa.Select:
+				if sel != nil || x.Blocking || len(x.States) != 1 || !isAcquiredChan(x.States[0].Chan) {
+					return false
+				}
+				sel = x
+			case *ssa.Store, *ssa.MapUpdate, *ssa.Go, *ssa.Defer, *ssa.Call:
+				return false
+			}
+		}
+	}
+	if sel == nil {
+		return false
+	}
+	sum := summarisePredicate(fn, 0)
+	if sum == nil {
+		return false
+	}
+	// true exactly on the receive arm
+	okTrue, okFalse := len(sum[true]) > 0, len(sum[false]) > 0
+	for _, fs := range sum[true] {
+		got := false
+		for _, f := range fs {
+			if e, ok := f.X.(*ssa.Extract); ok && e.Tuple == ssa.Value(sel) && e.Index == 0 {
+				if n, ok := constInt(f.Y); ok && n == 0 && f.Eq {
+					got = true
+				}
+			}
+		}
+		okTrue = okTrue && got
+	}
+	return okTrue && okFalse
 }
